@@ -42,7 +42,7 @@ typedef struct a_lpf
 #if defined(__cplusplus)
     A_INLINE void gen(a_real fc, a_real ts)
     {
-        alpha = ts / (A_REAL_1_TAU / fc + ts);
+        alpha = 1 / (A_REAL_1_TAU / (fc * ts) + 1);
     }
     A_INLINE a_real operator()(a_real x)
     {
@@ -63,7 +63,7 @@ typedef struct a_lpf lpf;
 #define A_LPF_1(alpha) {a_real_c(alpha), 0}
 #define A_LPF_2(fc, ts) {A_LPF_GEN(fc, ts), 0}
 /* clang-format on */
-#define A_LPF_GEN(fc, ts) (a_real_c(ts) / (A_REAL_1_TAU / a_real_c(fc) + a_real_c(ts)))
+#define A_LPF_GEN(fc, ts) (1 / (A_REAL_1_TAU / (a_real_c(fc) * a_real_c(ts)) + 1))
 
 /*!
  @brief generate for Low Pass Filter
@@ -80,7 +80,7 @@ typedef struct a_lpf lpf;
 */
 A_INTERN a_real a_lpf_gen(a_real fc, a_real ts)
 {
-    return ts / (A_REAL_1_TAU / fc + ts);
+    return 1 / (A_REAL_1_TAU / (fc * ts) + 1);
 }
 
 /*!
